@@ -98,7 +98,7 @@ NO_STRATEGY = {'groupcountdistinctvalues', 'recast'}      # these take no strate
 
 RULE = RULE % len(OPS)
 REQUIRED = (['op:' + o for o in OPS] + ['chunked-path-taken', 'in-memory-path-taken', 'presorted', 'tempdir', 'config.sort_buffersize',
-            'history:cache-off-edit-reflected', 'history:cache-on-replayed-after-edit', 'history:cached-sources-not-reopened'])
+            'history:cache-off-edit-reflected', 'history:cache-on-replayed-after-edit', 'history:cached-sources-not-reopened', 'history:pass-with-failing-source'])
 
 KEYS = [None, 1, 2, 1.0, 'a', 'b', (1, 2), 3]
 
@@ -151,6 +151,8 @@ def cases(ctx):
                 steps.append(['pass', 'all'])
             elif r < 0.6:
                 steps.append(['pass', rng.randint(0, 3)])
+            elif r < 0.66:
+                steps.append(['failing-pass', rng.randrange(len(tables)), rng.randint(1, 5)])
             elif r < 0.75:
                 steps.append(['append', rng.randrange(len(tables)), rng.choice(KEYS)])
             elif r < 0.87:
@@ -276,16 +278,58 @@ def _judge_history(case, ctx, spec):
     possible = []               # results that a not-yet-completed cached view may legitimately show
     edited_after_completed = False
 
+    versions = [[] for _ in data]     # the contents every input had at each (attempted) pass
+
+    def note_versions():
+        for i_, t_ in enumerate(data):
+            if not versions[i_] or util.canon(versions[i_][-1]) != util.canon(t_):
+                versions[i_].append(copy.deepcopy(t_))
+
     def current():
         r = _run(spec, data, {})
         return r
 
+    def mixed_results():
+        # each input is cached separately: before the operator has completed a pass, one input may already be cached from an
+        # earlier (partial or failed) pass while the other is re-read, so any combination of per-input versions may show
+        import itertools
+        out_ = []
+        for combo in itertools.product(*versions):
+            r_ = _run(spec, list(combo), {})
+            if not isinstance(r_, util.Raised):
+                out_.append(_canon(r_))
+        return out_
+
     for st in case['steps']:
+        if st[0] == 'failing-pass':
+            # one source fails once, at a data row, while a full pass is attempted: that pass is not a completed pass, and
+            # nothing it left behind may be replayed as if it were one
+            src_ = srcs[st[1]]
+            if len(data[st[1]]) - 1 < 1:
+                continue
+            src_.fail_next_at = 1 + (st[2] % (len(data[st[1]]) - 1))
+            note_versions()
+            hit = False
+            for v in views:
+                try:
+                    for _ in iter(v):
+                        pass
+                except probes.InjectedFault:
+                    hit = True
+                    break
+            src_.fail_next_at = None
+            if hit:
+                ctx.seen('history:pass-with-failing-source')
+            elif cache and completed is None:
+                # the pass ran through without touching the failing row: it was a completed pass (result recorded by the next pass step)
+                pass
+            continue
         if st[0] == 'pass':
             cur = current()
             if isinstance(cur, util.Raised):
                 return None      # the edit made the operator itself fail on these contents (e.g. header-only corner): not C11's matter
             possible.append(_canon(cur))
+            note_versions()
             before = [(s.iter_calls, s.exhausted, s.data_pulls) for s in srcs]
             k = st[1]
             got = []
@@ -332,7 +376,7 @@ def _judge_history(case, ctx, spec):
                         ctx.seen('history:cache-on-replayed-after-edit')
                         ctx.mark_nontrivial()
                 else:
-                    if not any(is_prefix(p) for p in possible):
+                    if not any(is_prefix(p) for p in possible) and not any(is_prefix(p) for p in mixed_results()):
                         out.append({'kind': 'cache-on-pass-matches-no-version-of-the-source', 'step': st, 'observed': got})
                         break
                     if k == 'all':
